@@ -478,6 +478,19 @@ pub fn run(ctx: &Ctx) -> EvidenceMeta {
         b.resize(20 + 65532 + extra, 0);
         fixed.push(Input::Bytes(Hex(b)));
     }
+    // every aligned message size up to 8 KiB, with a FINGERPRINT and with integrity + FINGERPRINT
+    // (implementations switch buffers at sizes that are neither powers of two nor protocol limits)
+    for body in (8u32..=8200).step_by(4) {
+        for (mi, fp) in [(false, true), (true, true)] {
+            if mi && body < 32 {
+                continue;
+            }
+            fixed.push(Input::Built {
+                spec: gen::sized_spec(body, gen::Seal { mi, sha256: false, fp }, (body / 4 % 4) as u8),
+                muts: vec![],
+            });
+        }
+    }
     let fixed: Vec<Case> = fixed
         .into_iter()
         .map(|input| Case {
